@@ -235,6 +235,13 @@ func execLine(line string) string {
 		return rec(func() string { return xs(url.VerifDecodePercentEncoded(cfgFromTok(t[2]).Parser, unx(t[3]))) })
 	case "LSPI":
 		return rec(func() string { return pairsTok(url.VerifSearchParamsInit(cfgFromTok(t[2]).Parser, unx(t[3]))) })
+	case "LPROF":
+		for _, p := range []*Prof{profWhatWg, profWhatWgSort, profGSB, profSemantic} {
+			if p.Name == t[2] {
+				return id + "\t" + b01(p.Tok == t[3])
+			}
+		}
+		return id + "\t0"
 	case "LDE":
 		return rec(func() string { return xs(canonicalizer.VerifDecodeEncode(unx(t[3]), setFromTok(t[2]))) })
 	case "LRD":
